@@ -53,6 +53,17 @@ class MindsDBParser(Parser):
     def text(self, value):
         self._text = value
 
+    def parse(self, tokens):
+        try:
+            return super().parse(tokens)
+        finally:
+            # a grammar action that raises leaves the token generator of the lexer unfinished; when it is collected
+            # later (at the latest when the next parse replaces self.tokens) it writes its own text back to
+            # lexer.text, under a statement that is already tokenized: finish it with the parse it belongs to
+            close = getattr(tokens, 'close', None)
+            if close is not None:
+                close()
+
     precedence = (
         ('left', OR),
         ('left', AND),
